@@ -77,8 +77,26 @@ def rules_rw12(prog, tier):
     r2 = RuleResult('R-RW-2', 'validity of every extracted rewrite rule')
     insts = rule_instances(prog)
     floor('R-RW-1', 'rewrite rule instances', len(insts), 38)
+    pending = None
     for (lang, name, ci, kids, lhs, level, state_holes) in insts:
-        f, outs = extract(prog, ci, METHOD, kids, rule='R-RW-1')
+        try:
+            f, outs = extract(prog, ci, METHOD, kids, rule='R-RW-1')
+        except Inconclusive as e:
+            # one instance outside the fragment does not hide the others
+            fm = prog.method(ci, METHOD)
+            if 'index-error' in str(e):
+                r1.fail(Finding(
+                    PROP, 'R-RW-1', fm.where(), fm.short(),
+                    '%s.%s raises IndexError' % (lang, name),
+                    'rewriting the %s formula %s asks for an operand the '
+                    'formula does not have (IndexError): the rewriter '
+                    'assumes more operands than this instance has' % (
+                        lang, show(lhs)),
+                    expected='a formula over ' +
+                    str(sorted(RESTRICTED[lang]))))
+            elif pending is None:
+                pending = e
+            continue
         terms = [t for (t, p) in outs if t[0] != 'raise']
         raises = [t for (t, p) in outs if t[0] == 'raise']
         desc = dict(lang=lang, rule=name, method=f.short(), lhs=show(lhs),
@@ -132,6 +150,9 @@ def rules_rw12(prog, tier):
     r1.notes.append('bare CTL temporal operators (X p, F p, .. without a '
                     'quantifier) are not CTL formulas a user can check; '
                     'their inherited rewriters are not armed')
+    if pending is not None and not (r1.findings or r2.findings):
+        pending.partial = (r1, r2)
+        raise pending
     return r1, r2
 
 
